@@ -125,15 +125,24 @@ pub fn set_scenario<T: Elem>(c: &mut Ctx, _idx: u64, rng: &mut Rng) {
                 s.0.get_or_insert(T::make(id, step as u16)).check();
             }
             5 => {
+                // valid and possibly emptied: what the set still holds must be live elements the drain had not handed out
                 let mut d = s.0.drain();
+                let mut yielded = Vec::new();
                 for _ in 0..k {
                     if let Some(x) = d.next() {
                         x.check();
+                        yielded.push(x.id());
                     }
                 }
                 std::mem::forget(d);
                 c.leak_ok = true;
-                crate::check!(s.0.is_empty(), "HashSet after a leaked Drain reports len {}", s.0.len());
+                let mut n = 0;
+                for x in s.0.iter() {
+                    x.check();
+                    n += 1;
+                    crate::check!(!yielded.contains(&x.id()), "HashSet after a leaked Drain still holds {}, which the drain had already handed out", x.id());
+                }
+                crate::check!(n == s.0.len(), "HashSet after a leaked Drain: len() {} but iter() yields {}", s.0.len(), n);
             }
             6 => {
                 let mut it = s.0.extract_if(|x| x.id() % 2 == 0);
